@@ -1810,12 +1810,16 @@ class FuncFind(ValueFunc):
             # start counts from the end and is clamped to the first element
             if start < 0:
                 start = max(0, start + len(lst))
-            for idx in range(start, len(lst)):
+            # the key function may change the list: the bound is tested at
+            # every step, not once
+            idx = start
+            while idx < len(lst):
                 elem = lst[idx]
                 if key:
                     elem = call_function(key, [elem], env, pos)
                 if elem == item:
                     return ValueInt(idx)
+                idx += 1
             return ValueInt(-1)
         raise CklRuntimeError(
             ValueString("ERROR"),
@@ -1872,12 +1876,19 @@ class FuncFindLast(ValueFunc):
             start = args.getInt("start", len(lst) - 1).value
             if start > len(lst) - 1:
                 start = len(lst) - 1
-            for idx in range(start, -1, -1):
+            idx = start
+            while idx >= 0:
+                # the key function may have shortened the list: the search
+                # goes on from its new end
+                if idx > len(lst) - 1:
+                    idx = len(lst) - 1
+                    continue
                 elem = lst[idx]
                 if key:
                     elem = call_function(key, [elem], env, pos)
                 if elem == item:
                     return ValueInt(idx)
+                idx -= 1
             return ValueInt(-1)
         raise CklRuntimeError(
             ValueString("ERROR"),
